@@ -13,6 +13,9 @@
   under the selector's lock), all endpoint sets, all weight vectors:
     * `C13_members`, `C13_current_set`        membership / error iff empty / no panic in `Select`
     * `C13_rotation`, `C13_cycle_rotation`     strict rotation; a window of one cycle is a rotation of it
+    * `C13_equal_weights_rotation`,
+      `C13_rotation_equal_weights`            equal static weights: every window of N is a permutation (tie-break
+                                               by `String()`, which must be injective on the set)
     * `C13_modhash`                            mod-hash selects `list[h mod N]` resp. `cycle[h mod |cycle|]`
     * `C13_cycle_len`, `C13_proportional`,
       `C13_weighted_window`                    the smooth-weighted-round-robin counting argument
@@ -277,6 +280,65 @@ theorem C13_weighted_window (v : Variant) (ops : List Op) (args : List Nat) (M m
   have hnd : (currentSet ops).Nodup := nodup_of_hosts (C13_current_set ops []).1
   rw [h2.count_eq, count_filterMap_getElem _ hnd i hi l hmem]
   exact hcnt i hi
+
+/-! ## Equal static weights: the weighted round robin is a strict rotation too -/
+
+/-- **Equal static weights, the cycle.**  All endpoints carry the same static weight `W > 0` and
+their `String()`s are pairwise different (the tie-break of the `sort.Slice` comparator is then a
+total order on the list — a key that is empty or shared, such as the `Key` field of a plain struct
+value, would not do): the cycle has length `10·N` and EVERY window of `N` consecutive entries is a
+permutation of the `N` indices. -/
+theorem C13_equal_weights_rotation (v : Variant) (eps : List Ep) (W : Int) (hne : eps ≠ [])
+    (hst : ∀ e ∈ eps, e.weightType = 1) (hW : ∀ e ∈ eps, e.weight = W) (hpos : 0 < W)
+    (h32 : W ≤ 2147483647) (hkeys : (eps.map Ep.str).Nodup) :
+    ∃ cap cycle, buildStaticWeightList v eps = .ok cap cycle ∧ cycle.length = 10 * eps.length ∧
+      ∀ a, a + eps.length ≤ cycle.length →
+        ((cycle.drop a).take eps.length).Perm (List.range eps.length) := by
+  obtain ⟨cap, σ, hb, hσ⟩ := build_equal v hne hst hW hpos h32 hkeys
+  have hlen : σ.length = eps.length := by simpa using hσ.length_eq
+  have hN : 0 < eps.length := List.length_pos_iff.2 hne
+  refine ⟨cap, _, hb, by simp, ?_⟩
+  intro a ha
+  simp only [List.length_map, List.length_range] at ha
+  have hwin : (((List.range (10 * eps.length)).map (pickAt σ)).drop a).take eps.length
+      = (List.range σ.length).map (fun j => pickAt σ (a + j)) := by
+    apply List.ext_getElem
+    · simp; omega
+    · intro j h1 h2
+      simp [List.getElem_take, List.getElem_drop]
+  rw [hwin, window_pickAt σ (by omega) a]
+  exact (List.rotate_perm σ a).trans hσ
+
+example :
+    let eps : List Ep := [⟨[97], 1, 2, [116], 5, 1⟩, ⟨[98], 1, 2, [116], 5, 1⟩, ⟨[99], 1, 2, [116], 5, 1⟩]
+    eps ≠ [] ∧ (∀ e ∈ eps, e.weightType = 1) ∧ (∀ e ∈ eps, e.weight = 5) ∧ (eps.map Ep.str).Nodup := by
+  decide
+
+/-- **Equal static weights, at the selector.**  Weighted round robin after any history whose
+current set carries one static weight `W > 0` and pairwise different `String()`s: `N` consecutive
+selections over the unchanged `N`-endpoint set return a permutation of the set, from any cursor. -/
+theorem C13_rotation_equal_weights (v : Variant) (ops : List Op) (args : List Nat) (W : Int)
+    (hne : currentSet ops ≠ [])
+    (hst : ∀ e ∈ currentSet ops, e.weightType = 1) (hW : ∀ e ∈ currentSet ops, e.weight = W)
+    (hpos : 0 < W) (h32 : W ≤ 2147483647) (hkeys : ((currentSet ops).map Ep.str).Nodup)
+    (hN : args.length = (currentSet ops).length)
+    (hwrap : (after v (State.new .roundRobin true) ops).lastStaticWeightPosition + args.length < uint64Mod) :
+    ∃ picked : List Ep,
+      (run v (after v (State.new .roundRobin true) ops) (args.map Op.select)).2 = picked.map Res.selected ∧
+      picked.Perm (currentSet ops) := by
+  obtain ⟨cap, σ, hb, hσ⟩ := build_equal v hne hst hW hpos h32 hkeys
+  obtain ⟨hwf, he, hk, hew⟩ := reach_spec v .roundRobin true ops
+  generalize after v (State.new .roundRobin true) ops = s at *
+  have hcache : s.cache = (List.range (10 * (currentSet ops).length)).map (pickAt σ) := by
+    rw [hwf.hcache, hew, he]; simp [cacheOf, hb]
+  have hlen : 0 < (currentSet ops).length := List.length_pos_iff.2 hne
+  have hcl : s.cache.length = 10 * (currentSet ops).length := by rw [hcache]; simp
+  have hcne : s.cache ≠ [] := List.length_pos_iff.1 (by rw [hcl]; omega)
+  have hrun := run_select_cached (v := v) args s hk (by rw [he]; exact hne) hcne hwrap
+  obtain ⟨picked, h1, h2⟩ := equal_window (currentSet ops) σ hσ hne (s.lastStaticWeightPosition + 1)
+  refine ⟨picked, ?_, h2⟩
+  rw [hrun, hN, he, hcache]
+  exact h1
 
 /-! ## No crash for any weights — with the proposed guard; exact failure set of the code as found (D2) -/
 
